@@ -185,24 +185,25 @@ package cisco
 // down; deleting the line at position i moves every line behind it one up.
 // posSnap is the position map right after the command was emitted.
 //vc:ghost var posSnap map[*cmd]int
+//vc:ghost var devLineText string
 //vc:func (*State).diffASAACLs$1
-//vc:  assert[C01] at "strconv.Itoa(pos + 1)" @lineNumberIsPositionPlusOne arg0 == pos + 1
+//vc:  assert[C01,C14] at "strconv.Itoa(pos + 1)" @lineNumberIsPositionPlusOne arg0 == pos + 1
 // addACL
 //vc:func (*State).diffASAACLs$2
 // the position of every line to be added or deleted was recorded before (loops over diff in diffASAACLs)
-//vc:  hypothesis[C01] b in pos
+//vc:  hypothesis[C01,C14] b in pos
 // (pos is a local of this diffASAACLs activation: nested activations reached through addCmds use their own map)
 //vc:  assume after "s.addCmds([]*cmd{b})" b in pos
 //vc:  assign after "s.addCmds([]*cmd{b})" posSnap = mapvals(pos)
-//vc:  invariant[C01] 1 "for cmd, p := range pos" @shiftedOnceIfVisited i == posSnap[b] && (forall c *cmd :: { pos[c] } pos[c] == ite(rangevisited[c] && posSnap[c] >= i, posSnap[c] + 1, posSnap[c]))
-//vc:  ensures[C01] @linesAtOrBehindInsertMoveDown forall c *cmd :: { pos[c] } (c in pos) ==> pos[c] == ite(posSnap[c] >= posSnap[b], posSnap[c] + 1, posSnap[c])
+//vc:  invariant[C01,C14] 1 "for cmd, p := range pos" @shiftedOnceIfVisited i == posSnap[b] && (forall c *cmd :: { pos[c] } pos[c] == ite(rangevisited[c] && posSnap[c] >= i, posSnap[c] + 1, posSnap[c]))
+//vc:  ensures[C01,C14] @linesAtOrBehindInsertMoveDown forall c *cmd :: { pos[c] } (c in pos) ==> pos[c] == ite(posSnap[c] >= posSnap[b], posSnap[c] + 1, posSnap[c])
 // delACL
 //vc:func (*State).diffASAACLs$3
-//vc:  hypothesis[C01] a in pos
+//vc:  hypothesis[C01,C14] a in pos
 //vc:  assume after "s.delCmds([]*cmd{a})" a in pos
 //vc:  assign after "s.delCmds([]*cmd{a})" posSnap = mapvals(pos)
-//vc:  invariant[C01] 1 "for cmd, p := range pos" @shiftedOnceIfVisited i == posSnap[a] && (forall c *cmd :: { pos[c] } pos[c] == ite(rangevisited[c] && posSnap[c] > i, posSnap[c] - 1, posSnap[c]))
-//vc:  ensures[C01] @linesBehindDeleteMoveUp forall c *cmd :: { pos[c] } (c in pos) ==> pos[c] == ite(posSnap[c] > posSnap[a], posSnap[c] - 1, posSnap[c])
+//vc:  invariant[C01,C14] 1 "for cmd, p := range pos" @shiftedOnceIfVisited i == posSnap[a] && (forall c *cmd :: { pos[c] } pos[c] == ite(rangevisited[c] && posSnap[c] > i, posSnap[c] - 1, posSnap[c]))
+//vc:  ensures[C01,C14] @linesBehindDeleteMoveUp forall c *cmd :: { pos[c] } (c in pos) ==> pos[c] == ite(posSnap[c] > posSnap[a], posSnap[c] - 1, posSnap[c])
 // addCmds/delCmds are recursive through diffCmds; callers use their inferred write sets instead of inlining them
 //vc:func (*State).addCmds
 //vc:  ensures[C01] true
@@ -442,6 +443,10 @@ package cisco
 // (a line that differs in its log attribute must be replaced even inside its
 // block); a route of the device is replaced by at most one new route.
 //vc:func (*State).diffIOSACLs
+// a device line that is to be deleted is reused in place for a wanted line
+// only if both print as the same text (a changed log attribute needs a new line)
+//vc:  assign after "getPrintableCmd(cmdPos.cmd, s.a)" devLineText = callresult
+//vc:  assert[C02,C14] at "moveACL(cmdPos, b, r.LowA, i,"#* @reusedInPlaceOnlyIfIdentical (arg4 || arg5) ==> pr == devLineText
 //vc:  assert[C02] at "moveACL(cmdPos, b," @suppressOnlyIdenticalLine (arg4 || arg5) ==> same
 // routeManaged / routeGiven: specification state of the last loop - the VRF of
 // the device route at hand gets routes from Netspoc; the route last handed to
@@ -455,6 +460,9 @@ package cisco
 //vc:  assert[C01,C02,C08] at "delete(delDst, dstOfRoute(c))" @replacedRouteMarked del.needed
 //vc:  assign after "if vrf := dstOfRoute(c).vrf; chgVRF[vrf]" routeManaged = (callresult.vrf in chgVRF) && chgVRF[callresult.vrf]
 //vc:  assign after "s.delCmds([]*cmd{c})" routeGiven = c
+// C07: a route leaves the device only if Netspoc gives routes for its VRF,
+// and each route is judged by its own VRF
+//vc:  assert[C07,C01,C02] at "s.delCmds("#* @routeDeletedOnlyForGivenVRF routeManaged && len(arg1) == 1 && arg1[0] == c
 //vc:  invariant[C01,C02] 7 "for _, c := range al[r.LowA:r.HighA]" @obsoleteRouteOfManagedVRFDeleted forall k int :: { rangeslice[k] } k == rangeindex && 0 <= k && routeManaged ==> routeGiven == rangeslice[k]
 // insideBlock (closure 4 of diffIOSACLs): the block an insert position belongs
 // to is the block of the line in front of it (remarks belong to the block in
@@ -585,3 +593,9 @@ package cisco
 // is removed first).
 //vc:func postprocessIOSACL
 //vc:  assert[C02] at "postprocessACLParts(c, parts, true)" @normalisedWordsFollowTheAction arg1 == tokens[1:] && arg2
+
+// C08 (deleteUnused, second phase): an object is removed only when no command
+// that is still to be deleted refers to it. The marks are computed from the
+// remaining set in every round - a mark map that lives across rounds would have
+// to count referrers.
+//vc:freshinloop[C08,C01] (*State).deleteUnused isReferenced 5
